@@ -832,7 +832,7 @@ class BaseSetIndexSortValues(Expr):
         ):
             return self.other.divisions
 
-        divisions, mins, maxes, presorted = _get_divisions(
+        divisions, mins, maxes, presorted, _ = _get_divisions(
             self.frame,
             self._divisions_column,
             self._npartitions_input,
@@ -1081,19 +1081,28 @@ class SortValues(BaseSetIndexSortValues):
             # Protect against triggering calculations when we only have one division
             return (None, None)
 
-        divisions, mins, maxes, presorted = _get_divisions(
-            self.frame,
-            self.frame[self.by[0]],
-            self._npartitions_input,
-            self._divisions_ascending,
-            upsample=self.upsample,
-        )
+        divisions, presorted = self._divisions_presorted
         if presorted and self._npartitions_input == self.frame.npartitions:
             if self.ignore_index:
                 # every partition is labeled from 0
                 return (None,) * (self.frame.npartitions + 1)
             return self.frame.divisions
         return (None,) * len(divisions)
+
+    @property
+    def _divisions_presorted(self):
+        divisions, _, _, presorted, nulls = _get_divisions(
+            self.frame,
+            self.frame[self.by[0]],
+            self._npartitions_input,
+            self._divisions_ascending,
+            upsample=self.upsample,
+        )
+        # The min / max of a partition skip missing values: sorting every
+        # partition on its own leaves them where they are, which is only
+        # right in the partition at the end they have to go to
+        misplaced = nulls[1:] if self.na_position == "first" else nulls[:-1]
+        return divisions, presorted and not any(misplaced)
 
     @property
     def _divisions_ascending(self) -> bool:
@@ -1139,13 +1148,7 @@ class SortValues(BaseSetIndexSortValues):
             )
 
         _divisions_by = self.frame[self.by[0]]
-        divisions, _, _, presorted = _get_divisions(
-            self.frame,
-            _divisions_by,
-            self._npartitions_input,
-            self._divisions_ascending,
-            upsample=self.upsample,
-        )
+        divisions, presorted = self._divisions_presorted
         if presorted and self.npartitions == self.frame.npartitions:
             return SortValuesBlockwise(
                 self.frame, self.sort_function, self.sort_function_kwargs
@@ -1441,6 +1444,10 @@ def _get_divisions(
     return result
 
 
+def _has_nulls(s):
+    return bool(s.isna().any())
+
+
 def _calculate_divisions(
     frame,
     other,
@@ -1455,10 +1462,11 @@ def _calculate_divisions(
         other = ToSeriesIndex(other)
 
     try:
-        divisions, mins, maxes = compute(
+        divisions, mins, maxes, nulls = compute(
             new_collection(RepartitionQuantiles(other, npartitions, upsample=upsample)),
             new_collection(other).map_partitions(M.min),
             new_collection(other).map_partitions(M.max),
+            new_collection(other).map_partitions(_has_nulls, meta=(None, bool)),
         )
     except TypeError as e:
         # When there are nulls and a column is non-numeric, a TypeError is sometimes raised as a result of
@@ -1522,4 +1530,4 @@ def _calculate_divisions(
             and maxes.tolist() == maxes.sort_values(ascending=ascending).tolist()
             and (maxes2 < mins2).all()
         )
-    return divisions, mins.tolist(), maxes.tolist(), presorted
+    return divisions, mins.tolist(), maxes.tolist(), presorted, nulls.tolist()
